@@ -626,10 +626,15 @@ class FmtStr:
         @no_type_check
         def func_help(*args, **kwargs):
             result = getattr(self.s, att)(*args, **kwargs)
+            # the results are text, not escape-coded strings: not to be parsed
             if isinstance(result, str):
-                return fmtstr(result, **self.shared_atts)
+                return FmtStr(Chunk(result, self.shared_atts))
             elif isinstance(result, list):
-                return [fmtstr(x, **self.shared_atts) for x in result]
+                shared = self.shared_atts
+                return [
+                    FmtStr(Chunk(x, shared)) if isinstance(x, str) else x
+                    for x in result
+                ]
             else:
                 return result
 
